@@ -1,4 +1,5 @@
 import GuppyVerif.Lemmas.C09Run
+import GuppyVerif.Lemmas.C09Term
 /-! # C09 — Dataflow analyses equal the path-based solution in any visit order
 
 Property theorems only.  All are for an arbitrary well-formed CFG (`Cfg.WF`: edges recorded
@@ -6,8 +7,10 @@ at both ends and closed over the block list — what `CFG.link`/`dummy_link` mai
 arbitrary use/assign sets, dummy edges, unreachable blocks and cycles, **no bound on size**,
 and for **every** visiting order: `LReach`/`AReach` let any queued block be popped next.
 
-Termination of the iteration is not part of these statements (they are about every run that
-ends with an empty worklist; `liveRun`/`assRun` return `none` if the fuel runs out). -/
+The path theorems are about every run that ends with an empty worklist (`liveRun`/`assRun`
+return `none` if the fuel runs out); `liveRun_terminates` shows that the liveness worklist does
+end, under every scheduler, within an explicit bound.  Termination of the forward (assignment)
+worklist is observed by the correspondence, not proved. -/
 namespace GuppyVerif.Dataflow
 
 /-- **Liveness = path semantics, any order.**  After any run of the backward worklist that ends
@@ -54,6 +57,34 @@ theorem liveRun_correct (g : Cfg) (hg : g.WF) (init : List Var) (sched : List Bl
     x ∈ t.vals b ↔ LiveSpec g init x b := by
   obtain ⟨hr, he⟩ := liveRun_reach g sched fuel _ _ h
   exact live_iff_path g hg init t hr (fun c _ => by rw [he]; exact List.not_mem_nil) b hb x
+
+/-- fuel that always suffices for the liveness worklist -/
+def liveBound (g : Cfg) (init : List Var) : Nat :=
+  ((livePairs g init).length + 1) * (g.blocks.length + 1)
+
+/-- **The liveness worklist terminates under every scheduler**, within `liveBound` pops
+    (each pop either leaves the values alone and shrinks the worklist, or flips one of finitely
+    many (block, variable) memberships, each of which can flip only once). -/
+theorem liveRun_terminates (g : Cfg) (hg : g.WF) (init : List Var) (sched : List Blk → Blk)
+    (fuel : Nat) (hf : liveBound g init ≤ fuel) :
+    (liveRun g sched fuel (liveInit g init)).isSome = true := by
+  apply liveRun_isSome g hg init sched fuel _ (ltinv_init g init)
+  refine Nat.le_trans ?_ hf
+  unfold livePot liveBound
+  have h1 : (livePairs g init).countP (pending init (liveInit g init).vals) ≤ (livePairs g init).length :=
+    List.countP_le_length
+  have h2 := countP_queue_le g (liveInit g init).queue
+  calc _ ≤ (livePairs g init).length * (g.blocks.length + 1) + g.blocks.length :=
+        Nat.add_le_add (Nat.mul_le_mul_right _ h1) h2
+    _ ≤ _ := by rw [Nat.add_mul]; omega
+
+/-- total correctness: with `liveBound` fuel the run returns, and returns the path semantics -/
+theorem liveRun_total (g : Cfg) (hg : g.WF) (init : List Var) (sched : List Blk → Blk) :
+    ∃ t, liveRun g sched (liveBound g init) (liveInit g init) = some t ∧
+      ∀ b ∈ g.blocks, ∀ x, x ∈ t.vals b ↔ LiveSpec g init x b := by
+  have h := liveRun_terminates g hg init sched _ (Nat.le_refl _)
+  obtain ⟨t, ht⟩ := Option.isSome_iff_exists.mp h
+  exact ⟨t, ht, fun b hb x => liveRun_correct g hg init sched _ t ht b hb x⟩
 
 /-- **Definite assignment = all paths, any order.**  `x` is definitely assigned before `b` iff
     no backward path from `b` reaches a root (a block without predecessors, the entry) without
